@@ -38,5 +38,5 @@ def run(ctx):
     node_check.node_id_variant(ctx, "MCEmcy", "C15", pre, observe, True, (100, 4000), 45, 2500)
     # next to every other service and timer of the node (product model CoFull)
     import full_check
-    full_check.run(ctx, 400 if q else 20000)
+    full_check.run(ctx, 400 if q else 6000)
 
